@@ -3,18 +3,16 @@
 (* Gets of the witness database are observed through the verif hook) must be a behaviour   *)
 (* of StatelessRun.tla.                                                                    *)
 (*   reset  n         a block was imported with witness collection: witness = items 1..n   *)
-(*   begin  removed   ExecuteStateless starts on the witness without item `removed` (0 =   *)
-(*                    complete witness)                                                    *)
+(*   begin  removed kind  ExecuteStateless starts on the witness without item `removed`    *)
+(*                    (0 = complete witness); kind = "none"|"node"|"code"|"header"         *)
 (*   read   id hit    one Get of the witness database for item id and whether it was served*)
 (*   end    err same  ExecuteStateless returned (error?, state and receipt root equal to    *)
 (*                    the block's?)                                                        *)
 EXTENDS StatelessRun, Json, IOUtils, TLC, Sequences
 
-CONSTANT AllowIgnoredDbError   \* TODO-KNOWN-FINDING (C34): see TEndKnown
-
 Trace == ndJsonDeserialize(IOEnv.TRACE)
 
-VARIABLE l
+VARIABLES l, rmkind   \* rmkind: kind of the removed item of the current run ("none", "node", "code", "header")
 
 Ev == Trace[l]
 
@@ -22,42 +20,42 @@ Step(A) == l <= Len(Trace) /\ A /\ l' = l + 1
 
 TReset == Step(/\ Ev.op = "reset"
                /\ witness' = 1..Ev.n /\ avail' = {} /\ running' = FALSE /\ missed' = FALSE
-               /\ readset' = {} /\ outcome' = "none")
+               /\ readset' = {} /\ outcome' = "none" /\ rmkind' = "none")
 
 TBegin == Step(/\ Ev.op = "begin"
-               /\ Begin(IF Ev.removed = 0 THEN {} ELSE {Ev.removed}))
+               /\ Begin(IF Ev.removed = 0 THEN {} ELSE {Ev.removed})
+               /\ rmkind' = Ev.kind)
 
 (* the database must behave like the set `avail`: served iff present *)
 TRead  == Step(/\ Ev.op = "read"
                /\ Ev.hit = Served(Ev.id)
-               /\ Read(Ev.id))
+               /\ Read(Ev.id) /\ UNCHANGED rmkind)
 
 (* the specified outcomes *)
 TEnd   == Step(/\ Ev.op = "end"
                /\ End
                /\ \/ outcome' = "fail" /\ Ev.err
-                  \/ outcome' = "same" /\ ~Ev.err /\ Ev.same)
+                  \/ outcome' = "same" /\ ~Ev.err /\ Ev.same
+               /\ UNCHANGED rmkind)
 
 (* tolerated: a read was not served, the run reported no error, and the result is the     *)
 (* block's result all the same (the value of the missing item did not matter); the         *)
 (* property forbids only a DIFFERENT result                                                 *)
 TEndBenign == Step(/\ Ev.op = "end" /\ running /\ missed /\ ~Ev.err /\ Ev.same
                    /\ outcome' = "same" /\ running' = FALSE
-                   /\ UNCHANGED <<witness, avail, missed, readset>>)
+                   /\ UNCHANGED <<witness, avail, missed, readset, rmkind>>)
 
-(* TODO-KNOWN-FINDING (C34, candidate defect reported to the coordinator): ExecuteStateless *)
-(* does not consult StateDB.Error(), so a run whose database read FAILED can return err=nil*)
-(* with a different state root.  While AllowIgnoredDbError is TRUE exactly this fingerprint *)
-(* (a read was not served /\ no error /\ different result) is skipped over; everything else*)
-(* is still validated.  Set the constant to FALSE once the defect is fixed.                 *)
-TEndKnown == Step(/\ AllowIgnoredDbError
-                  /\ Ev.op = "end" /\ running /\ missed /\ ~Ev.err /\ ~Ev.same
-                  /\ outcome' = "fail" /\ running' = FALSE
-                  /\ UNCHANGED <<witness, avail, missed, readset>>)
+(* outside the property text (which speaks of trie nodes and code): with an ANCESTOR HEADER  *)
+(* removed, BLOCKHASH silently yields zero (core.GetHashFn treats a missing header like an   *)
+(* out-of-range number), so the run can finish with a different root and no error.  Such     *)
+(* runs are recorded (the driver counts them as an observation) but not judged.               *)
+TEndHeaderGap == Step(/\ Ev.op = "end" /\ running /\ missed /\ ~Ev.err /\ ~Ev.same /\ rmkind = "header"
+                      /\ outcome' = "fail" /\ running' = FALSE
+                      /\ UNCHANGED <<witness, avail, missed, readset, rmkind>>)
 
-TraceInit == RunInit /\ l = 1
-TraceNext == TReset \/ TBegin \/ TRead \/ TEnd \/ TEndBenign \/ TEndKnown
-TraceSpec == TraceInit /\ [][TraceNext]_<<witness, avail, running, missed, readset, outcome, l>>
+TraceInit == RunInit /\ l = 1 /\ rmkind = "none"
+TraceNext == TReset \/ TBegin \/ TRead \/ TEnd \/ TEndBenign \/ TEndHeaderGap
+TraceSpec == TraceInit /\ [][TraceNext]_<<witness, avail, running, missed, readset, outcome, l, rmkind>>
 
 TraceAccepted == TLCGet("stats").diameter - 1 = Len(Trace)
 =============================================================================
